@@ -113,7 +113,10 @@ def mk_step(op, nlfix, bsfix=None):
 
 MARKUP = ['ex[a]', 'ex[a b]>ey', 'ex>ey[a]+ez', 'img', 'a', 'input[type]', 'ex[a=${1} b=${2}]', 'ex[a=${2} b=${1}]',
           'ex{${1:p} ${3}}+ey[t]', 'ul>li*901[t]', 'ex>br/+ey', 'ex{QZ1}>ey[t]', 'ex>ey{QZ1}+ez', 'ex[t=QZ1]>ey', 'ex>(ey[a]>ez)*901',
-          'ex>{QZ1}+ey', 'ex{${2:b} ${1:a}}+ey[t]', 'ex[t="${1:p} ${0}"]', 'ex{${3} ${1} ${2}}>ey[a b]', 'ex[t=""]>ey', "ex[t='' u]"]
+          'ex>{QZ1}+ey', 'ex{${2:b} ${1:a}}+ey[t]', 'ex[t="${1:p} ${0}"]', 'ex{${3} ${1} ${2}}>ey[a b]', 'ex[t=""]>ey', "ex[t='' u]",
+          # explicit fields in non-ascending order AFTER earlier tabstops and BEFORE later ones
+          'ex[a]{${2:b} ${1:a}}+ey[t]', 'ex[a b]>ey{${3} ${1} ${2}}+ez[c]', 'ex[a]>ey[b]{${2:q} ${1:p}}>ez[c d]',
+          'ex[a]>ey[t="${4:x} ${2:y}" u]+ez']
 # expected tabstop indices for templates without explicit fields (r = repeat count); None = only generic checks
 IMPLICIT = {
     'ex[a]': lambda r: [1, 2], 'ex[a b]>ey': lambda r: [1, 2, 3], 'ex>ey[a]+ez': lambda r: [1, 2, 3],
